@@ -381,6 +381,7 @@ type c12cfg struct {
 	pendingRead          bool
 	late                 bool
 	lateNew              bool // a datagram from a remote the listener has never seen, racing with Close
+	twoClosers           bool // the listener is closed from two threads at once
 	bound                int
 }
 
@@ -397,6 +398,9 @@ func (c c12cfg) name() string {
 	}
 	if c.lateNew {
 		s += " +late-datagram-from-new-remote"
+	}
+	if c.twoClosers {
+		s += " +second-concurrent-listener-Close"
 	}
 	return s
 }
@@ -492,6 +496,18 @@ func c12scenario(c c12cfg) *explore.Scenario {
 					fail("accept-after-close", "Accept after the listener's Close returned a connection (%v)", cn.RemoteAddr())
 				}
 			})
+			if c.twoClosers {
+				// Close is idempotent however concurrently: once ANY Close call has returned, Accept fails
+				zzvsched.GoNamed("close-listener-2", func() {
+					listenerCloseBegun = true
+					if err := l.Close(); err != nil {
+						fail("listener-close-error", "second concurrent listener Close returned %v", err)
+					}
+					if cn, err := l.Accept(); err == nil {
+						fail("accept-after-close", "Accept after a listener Close call had returned handed out a connection (%v)", cn.RemoteAddr())
+					}
+				})
+			}
 			for _, x := range conns {
 				x := x
 				if c.pendingRead && x == conns[0] {
@@ -654,6 +670,8 @@ func init() {
 				{accepted: 1, unaccepted: 0, lateNew: true, bound: b},
 				// a never-seen remote's first datagram races with the listener's Close AND a pending Accept
 				{accepted: 0, unaccepted: 0, lateNew: true, pendingAccept: true, bound: b},
+				{accepted: 0, unaccepted: 1, twoClosers: true, bound: b},
+				{accepted: 1, unaccepted: 1, twoClosers: true, bound: b},
 			}
 			if tier == "thorough" {
 				// unbounded (closed by the state cache) for the smallest lifecycles
@@ -668,6 +686,6 @@ func init() {
 			}
 			return out
 		},
-		Rule:        "0-2 accepted and 0-1 unaccepted connections; threads: listener Close (twice, then Accept), each connection's Close (twice, after a Write), a pending Accept, a pending Read, a late datagram; every interleaving within the deviation bound; invariant checked at the instant the fake socket is closed and whenever Accept returns a connection: socket closed => listener Close begun and no accepted connection unclosed; at quiescence: socket closed exactly once, no goroutine of package udp left, pending calls unblocked",
+		Rule:        "0-2 accepted and 0-1 unaccepted connections; threads: listener Close (twice, then Accept; optionally from two threads at once), each connection's Close (twice, after a Write), a pending Accept, a pending Read, a late datagram; every interleaving within the deviation bound; invariant checked at the instant the fake socket is closed and whenever Accept returns a connection: socket closed => listener Close begun and no accepted connection unclosed; at quiescence: socket closed exactly once, no goroutine of package udp left, pending calls unblocked",
 		Assumptions: []string{"that the kernel frees the port when net.UDPConn.Close returns is trusted, not explored"}})
 }
